@@ -179,6 +179,45 @@ def direct_pattern_alias():
     return None if _shape_of(p) == was else "after the caller changed its own lists the pattern has %d blocks, %d preconditions, %d "         "haltconditions (was %d, %d, %d)" % (len(p.blocks), len(p.preconditions), len(p.haltconditions), len(was[0]), was[1], was[2])
 
 
+def method_predicate_case(typed):
+    """predicates given as BOUND METHODS of an object the application does not keep (builder.followed_by(
+    Threshold(30).exceeded)): the accepted pattern is run against a stream, after a garbage collection; nothing but
+    the verdicts of the methods may come out of BoboRun.process"""
+    import gc
+    from bobocep.cep.engine.decider.run import BoboRun
+    from bobocep.cep.event import BoboEventSimple, BoboHistory
+    from bobocep.cep.phenom.pattern.builder import BoboPatternBuilder
+    from bobocep.cep.phenom.pattern.predicate import BoboPredicateCallType
+
+    class Threshold:
+        def __init__(self, limit):
+            self.limit = limit
+
+        def exceeded(self, event, history):
+            return event.data > self.limit
+    b = BoboPatternBuilder("p")
+    for lim in (0, 10, 20):
+        m = Threshold(lim).exceeded
+        b.followed_by(BoboPredicateCallType(m, dtype=int) if typed else m)
+        del m
+    b.haltcondition(Threshold(1000).exceeded)
+    pat = b.generate()
+    gc.collect()
+    ev = [BoboEventSimple(event_id="e%d" % i, timestamp=i, data=d) for i, d in enumerate((5, 15, 25))]
+    try:
+        run = BoboRun(run_id="r1", phenomenon_name="ph", pattern=pat, block_index=1,
+                      history=BoboHistory({pat.blocks[0].group: [ev[0]]}))
+        for e in ev[1:]:
+            run.process(e)
+    except Exception as ex:      # noqa
+        return "pattern accepted by the builder, predicates = bound methods of objects nobody else keeps: %s: %s escaped " \
+               "BoboRun.process" % (type(ex).__name__, ex)
+    if not run.is_complete():
+        return "pattern of three bound-method predicates (> 0, > 10, > 20) on data 5, 15, 25: the run did not complete (block %d)" \
+               % run.block_index
+    return None
+
+
 def real_build(name, single, seq, early=False):
     """early: generate() is also called after every builder call (a builder reused for several patterns); the result
     reported is that of the last generate(), which must not depend on the earlier ones"""
@@ -384,6 +423,11 @@ def run(ctx, res):
     res.note_case(("pattern-alias",), True)
     if bad:
         res.failures.append(dict(signature="accepted-pattern-changed-afterwards", what=bad, case=dict(alias=True)))
+    for typed in (False, True):
+        bad = method_predicate_case(typed)
+        res.note_case(("method-predicates", typed), True)
+        if bad:
+            res.failures.append(dict(signature="accepted-pattern-raises-internal-error", what=bad, case=dict(method_predicates=typed)))
     mism, errs = common.coq_run_cases("C19b", IMPORTS, "run_C19_build", "(nat * bool * list (bop ev))", coq_cases,
                                       shard=400, preamble=PREAMBLE)
     res.errors += errs
@@ -459,6 +503,10 @@ def replay(obj):
     case = obj.get("case") or {}
     sig = obj.get("signature", "")
     print(obj.get("what"))
+    if "method_predicates" in case:
+        bad = method_predicate_case(bool(case["method_predicates"]))
+        print(bad or "the run completed on the methods' verdicts")
+        return 1 if bad else 0
     if case.get("alias"):
         bad = direct_pattern_alias()
         print(bad or "the pattern kept its own copies")
